@@ -52,6 +52,7 @@ def run(ctx: Ctx) -> None:
     isr_bits(ctx, py, rs)
     tick_sites(ctx, py, rs)
     tick_discipline(ctx, py)
+    target_ownership(ctx, py, rs)
     from ..snaprules import timer_restore_findings
     found, nn = timer_restore_findings(py)
     for key, what, ln in found:
@@ -370,3 +371,57 @@ def tick_discipline(ctx: Ctx, py: PyProgram) -> None:
                                       f"the {node.name} setter stores `{unparse(a.value)}` instead of the value it is given: a period of 0 (timer off) or a restored snapshot value is silently changed", f"{EMU}:{a.lineno}")
     ctx.need(k >= 4, f"timer property setters not found ({k})")
     ctx.instance("C13.6/tick-discipline", "all fired sources latched; tick precedes the cycle advance; timer setters store their argument", n + k, 8)
+
+
+def target_ownership(ctx: Ctx, py: PyProgram, rs: RustProgram) -> None:
+    """Who may move a timer's next-fire target.  (a) Python: TimerScheduler.advance both moves the targets and reports what fired, so
+    every call of it must be the one in _tick_timers whose result is latched - a call that drops the result consumes boundaries
+    silently.  (b) Python: reset arms both targets one period after the base cycle, unconditionally (a target left at 0 fires the
+    moment the timers are enabled).  (c) Rust: inside CoreRuntime::step the targets are moved only by the tick functions."""
+    n = 0
+    mod = py.module(EMU)
+    cls = py.need_cls(mod, "PCE500Emulator")
+    for mname, m in cls.methods.items():
+        for c in ast.walk(m):
+            if isinstance(c, ast.Call) and isinstance(c.func, ast.Attribute) and c.func.attr == "advance" and (attr_chain(c.func.value) or "").endswith("_scheduler"):
+                n += 1
+                dropped = any(isinstance(st, ast.Expr) and st.value is c for st in ast.walk(m))
+                if mname != "_tick_timers" or dropped:
+                    ctx.violation("C13.6/advance-owner", key_of(EMU, f"PCE500Emulator.{mname}", "scheduler.advance outside the latching tick"),
+                                  f"PCE500Emulator.{mname} calls scheduler.advance(){' and drops its result' if dropped else ''}: advance() moves the targets past every boundary up to the given cycle, so boundaries crossed here are never latched in ISR (no status bit, no interrupt)", f"{EMU}:{c.lineno}")
+    rst = py.func(SCHED, "TimerScheduler.reset")
+    base = [a.arg for a in rst.args.args + rst.args.kwonlyargs if a.arg != "self"]
+    for fld, per in (("self._next_mti", "self.mti_period"), ("self._next_sti", "self.sti_period")):
+        stores = [a for a in ast.walk(rst) if isinstance(a, ast.Assign) and any(attr_chain(t) == fld for t in a.targets)]
+        n += 1
+        g = cfgmod.build_py(rst, "reset")
+        ok = len(stores) == 1 and isinstance(stores[0].value, ast.BinOp) and isinstance(stores[0].value.op, ast.Add) and {unparse(stores[0].value.left), unparse(stores[0].value.right)} == {base[0] if base else "?", per} \
+            and not [x for x in g.guards_of(g.node_of(stores[0])) if isinstance(x[0], ast.AST)]
+        if not ok:
+            ctx.violation("C13.2/reset-target", key_of(SCHED, "TimerScheduler.reset", f"{fld}"),
+                          f"reset does not arm {fld} as `{base[0] if base else 'base'} + {per}` unconditionally ({[unparse(s_.value)[:60] for s_ in stores]}): a target left at or before the current cycle fires on the first tick after the timers are enabled, without a period boundary having been crossed", f"{SCHED}:{rst.lineno}")
+    # (c)
+    writers: set[str] = set()
+    calls: dict[str, set[str]] = {}
+    for fn in rs.fns_in(TIMER_RS):
+        if fn.impl_ty != "TimerContext" or fn.body is None:
+            continue
+        if any(a.get("k") in ("assign", "opassign") and a["l"].get("k") == "field" and a["l"].get("name") in ("next_mti", "next_sti") for a in walk(fn.body)):
+            writers.add(fn.name)
+        calls[fn.name] = {c["m"] for c in walk(fn.body) if c.get("k") == "mcall" and expr_text(c["recv"]) == "self"}
+    changed = True
+    while changed:
+        changed = False
+        for f_, cs in calls.items():
+            if f_ not in writers and cs & writers:
+                writers.add(f_)
+                changed = True
+    ctx.need({"tick_timers", "reset"} <= writers, f"TimerContext target writers not recovered ({sorted(writers)})")
+    st = rs.fn(isa.LIB_RS, "CoreRuntime::step")
+    for c in walk(st.body):
+        if c.get("k") == "mcall" and c["m"] in writers and "timer" in expr_text(c["recv"]):
+            n += 1
+            if c["m"] not in ("tick_timers", "tick_timers_with_keyboard"):
+                ctx.violation("C13.6/advance-owner", key_of(st.file, st.qual, f"timer.{c['m']} inside the step loop"),
+                              f"CoreRuntime::step calls timer.{c['m']}(), which moves next_mti/next_sti outside a tick: the firing cadence (and parity with the Python scheduler) depends on instruction lengths", f"{st.file}:{c['ln']}")
+    ctx.instance("C13.6/target-ownership", "callers of scheduler.advance, reset's target arming, TimerContext target writers reached from CoreRuntime::step", n, 4)
